@@ -1,4 +1,5 @@
-"""C36 Page-tree indentation fixes always yield a valid tree (exhaustive enumeration)."""
+"""C36 Page-tree indentation fixes always yield a valid tree (exhaustive enumeration of
+treeview.fix_indents, and of page removals through the engine with every page order)."""
 import sys
 import itertools
 from collections import namedtuple
@@ -62,7 +63,105 @@ def cases(tier):
           yield indents, frozenset(deleted)
 
 
+# ---------------------------------------------------------------------------------------------
+# Engine part: the same law through UserActions._removePageRecords (BulkRemoveRecord _grist_Pages)
+# ---------------------------------------------------------------------------------------------
+_SNAP = []
+NPAGES = 4
+
+
+def base_snap():
+  if not _SNAP:
+    doc = H.Doc.new()
+    for i in range(NPAGES):
+      doc.apply([["AddTable", "T%d" % (i + 1), [{"id": "a", "type": "Int"}]]])
+    pages = sorted(doc.dump()['_grist_Pages']['rows'])
+    assert pages == list(range(1, NPAGES + 1)), pages
+    _SNAP.append(doc.snapshot())
+  return _SNAP[0]
+
+
+def valid_trees(n):
+  def rec(prefix):
+    if len(prefix) == n:
+      yield tuple(prefix)
+      return
+    for v in range(0, (prefix[-1] + 1 if prefix else 0) + 1):
+      for t in rec(prefix + [v]):
+        yield t
+  return rec([])
+
+
+def _pos(v):
+  return float(v['f']) if isinstance(v, dict) and 'f' in v else v
+
+
+def engine_case(case):
+  """case = (perm, indents, deleted): perm[k] = row id of the page shown at position k, indents
+  in page order, deleted = positions (1-based) in page order.  Returns None or (key, message)."""
+  perm, indents, deleted = case
+  doc = H.Doc.load(base_snap())
+  n = len(perm)
+  g, e = doc.try_apply([["BulkUpdateRecord", "_grist_Pages", list(perm),
+                         {"pagePos": [float(k + 1) for k in range(n)], "indentation": list(indents)}]])
+  if e is not None:
+    return ('C36/engine/setup-raised', "arranging pages %s raised %s" % (case, H.exc_text(e)))
+  rows = doc.dump()['_grist_Pages']['rows']
+  order = sorted(rows, key=lambda r: _pos(rows[r]['pagePos']))
+  if order != list(perm) or [rows[r]['indentation'] for r in order] != list(indents):
+    return ('C36/engine/setup-differs', "pages arranged as %s, wanted %s/%s" % (
+        [(r, rows[r]['indentation']) for r in order], perm, indents))
+  rem = [perm[k - 1] for k in sorted(deleted)]
+  g, e = doc.try_apply([["BulkRemoveRecord", "_grist_Pages", rem]])
+  if e is not None:
+    return ('C36/engine/remove-raised/' + type(e).__name__,
+            "removing pages %s (positions %s of %s, levels %s) raised %s" % (
+                rem, sorted(deleted), list(perm), list(indents), H.exc_text(e)))
+  after = doc.dump()['_grist_Pages']['rows']
+  left = [r for r in order if r not in rem]
+  if sorted(after) != sorted(left):
+    return ('C36/engine/wrong-pages-removed', "pages left %s, expected %s" % (sorted(after), sorted(left)))
+  if sorted(left, key=lambda r: _pos(after[r]['pagePos'])) != left:
+    return ('C36/engine/page-order-changed', "page order %s became %s" % (
+        left, sorted(left, key=lambda r: _pos(after[r]['pagePos']))))
+  pos = {r: k + 1 for k, r in enumerate(order)}
+  fixes = [(pos[r], after[r]['indentation']) for r in left if after[r]['indentation'] != indents[pos[r] - 1]]
+  bad = oracle(tuple(indents), frozenset(deleted), fixes)
+  if bad:
+    return ('C36/engine/' + bad[0].split('/', 1)[1],
+            "%s (row ids in page order %s, levels %s, removed positions %s -> levels %s)" % (
+                bad[1], list(perm), list(indents), sorted(deleted),
+                [(r, after[r]['indentation']) for r in left]))
+  return None
+
+
+def engine_cases(tier):
+  perms = list(itertools.permutations(range(1, NPAGES + 1)))
+  for perm in perms:
+    for indents in valid_trees(NPAGES):
+      for k in range(1, NPAGES + 1):
+        for deleted in itertools.combinations(range(1, NPAGES + 1), k):
+          yield (perm, indents, deleted)
+
+
+def engine_worker(chunk):
+  from mc.enumprop import PartReport, part_of
+  E = Enum(PartReport('C36'), rule='')
+  base_snap()
+  for case in chunk:
+    bad = engine_case(case)
+    E.count(('engine',) + case, nontrivial=True)
+    if bad:
+      E.fail(bad[0], bad[1], case={'engine': True, 'perm': list(case[0]), 'indents': list(case[1]),
+                                   'deleted': list(case[2])})
+  return part_of(E)
+
+
 def run(tier, report):
+  from mc.enumprop import pmap
+  base_snap()
+  ecases = list(engine_cases(tier))
+  parts = pmap(engine_worker, [ecases[i::64] for i in range(64)])
   E = Enum(report, rule='every indentation sequence of length <= %d over levels {0,1,2,3} x every '
                         'subset of removed pages; non-trivial = fix_indents returned at least one '
                         'fix; oracle: valid tree, never deeper, only violating pages changed'
@@ -82,12 +181,26 @@ def run(tier, report):
     if bad:
       E.fail(bad[0], "%s (indents=%s removed=%s fixes=%s)" % (bad[1], list(indents), sorted(deleted), fixes),
              case={'indents': list(indents), 'deleted': sorted(deleted)})
-  E.finish(exhaustive=True)
+  for part in parts:
+    E.merge(part)
+  E.finish(exhaustive=True, engine_cases=len(ecases))
+  report.coverage['engine_rule'] = (
+      'through the engine: %d pages whose row ids are arranged in %s page orders (pagePos) x every '
+      'valid tree of levels x every non-empty set of pages removed by one BulkRemoveRecord on '
+      '_grist_Pages (UserActions._removePageRecords); same oracle on the levels read back'
+      % (NPAGES, 'all 24'))
   report.assumptions.append('pages are given in pagePos order, as _removePageRecords passes them')
 
 
 def replay(viol):
   c = viol['case']
+  if c.get('engine'):
+    bad = engine_case((tuple(c['perm']), tuple(c['indents']), tuple(c['deleted'])))
+    print(bad)
+    if bad:
+      print("VIOLATION property=C36 replay=(this file) reproduced")
+      return 1
+    return 0
   items = [Item(i + 1, ind) for i, ind in enumerate(c['indents'])]
   fixes = treeview.fix_indents(items, set(c['deleted']))
   bad = oracle(tuple(c['indents']), set(c['deleted']), fixes)
